@@ -1,6 +1,7 @@
 """C14 - program size never changes meaning: the instruction encoding either represents an operand /
 jump target exactly or the program is refused with a JSError.  Contracts on Compiler._emit /
 _emit_jump / _patch_jump and the decode expression used by the VM."""
+from pyvc import structural as _S_
 from pyvc.api import *
 from pyvc import groups
 from microjs.opcodes import OpCode
@@ -191,10 +192,10 @@ def c14_decode_expr(tier="quick", seed=0):
     from pyvc.groups import ob
     import ast
     f = S.fn("microjs.vm", "VM._execute")
-    src = [ast.unparse(n) for n in ast.walk(f) if isinstance(n, ast.Assign)]
+    src = [_S_.unparse(n) for n in ast.walk(f) if isinstance(n, ast.Assign)]
     want = ["low = bytecode[frame.ip]", "high = bytecode[frame.ip + 1]", "arg = low | high << 8", "frame.ip += 2"]
     have = [w for w in want[:3] if w in src]
-    aug = any(isinstance(n, ast.AugAssign) and ast.unparse(n) == "frame.ip += 2" for n in ast.walk(f))
+    aug = any(isinstance(n, ast.AugAssign) and _S_.unparse(n) == "frame.ip += 2" for n in ast.walk(f))
     return [ob("C14.decode-expr.execute", len(have) == 3 and aug, "K2", f"decoder statements found: {have}, ip += 2: {aug}")]
 
 
